@@ -11,6 +11,8 @@ import AnthemModel.Model.Analyze
 import AnthemModel.Syntax.WireProblem
 import AnthemModel.Model.TptpFmt
 import AnthemModel.Model.External
+import AnthemModel.Model.Files
+import AnthemModel.Model.Status
 import Driver.Search
 open Anthem
 
@@ -41,6 +43,19 @@ def portfolioByName : String → Option Portfolio
 def strategyByName : String → Option Strategy
   | "shallow" => some .shallow | "recursive" => some .recursive | "fixpoint" => some .fixpoint
   | _ => none
+
+partial def ftreeOfSexp : Sexp → Option FTree
+  | .list [.atom "f", .str n] => some (.file n)
+  | .list [.atom "d", .str n, .list cs] => do some (.dir n (← cs.mapM ftreeOfSexp))
+  | _ => none
+
+def strs (l : List String) : Sexp := .list (l.map .str)
+def optStr : Option String → Sexp | some s => .str s | none => .atom "none"
+
+def specSexp : Option (Bool × String) → Sexp
+  | some (true, s) => .list [.atom "spec", .str s]
+  | some (false, s) => .list [.atom "prog", .str s]
+  | none => .atom "none"
 
 def respond (req : Sexp) : Sexp :=
   match req with
@@ -159,6 +174,20 @@ def respond (req : Sexp) : Sexp :=
         | .timeout => .list [.atom "timeout"]
       | _, _, _, _ => bad
     | _, _, _, _, _, _, _ => bad
+  | .list [.atom "files_sort", .list args] =>
+    match args.mapM ftreeOfSexp with
+    | some ts =>
+      let f := Files.ofPaths (ts.flatMap (walkPaths ""))
+      .list [strs f.programs, strs f.specifications, strs f.userGuides, strs f.proofOutlines, strs f.other,
+        optStr f.left, optStr f.right,
+        specSexp f.specification,
+        optStr f.program, optStr f.userGuide, optStr f.proofOutline]
+    | none => bad
+  | .list [.atom "status_of", .str out] =>
+    match statusOf out with
+    | .ok st => .list [.atom "ok", .atom ((reprStr st).replace "Anthem.Status." "")]
+    | .missing => .atom "missing"
+    | .unknown w => .list [.atom "unknown", .str w]
   | .list [.atom "free_vars", f] =>
     match Formula.ofSexp f with
     | some f => .list (f.fv.map Var.toSexp)
